@@ -116,6 +116,18 @@ def key_pools():
     return _KEYS
 
 UNI = 'éüñßøΩжλ中文日本🧬\u2028'        # 2-, 3- and 4-byte UTF-8 letters (and one non-ASCII separator)
+# code points that str.splitlines() treats as line boundaries but that are ordinary field content for the GVF
+# reader (only LF ends a record; CR cases as modelled): each is used, in rotation, in every stream
+LINE_BREAK_LIKE = '\u2028\u2029\x85\x0c\x0b\x1c\x1d\x1e'
+_LB = [0]
+
+LB_BYTES = [ch.encode('utf-8').decode('latin-1') for ch in LINE_BREAK_LIKE]
+
+def lbword(rng):
+    """a word with one line-break-like code point strictly inside (never leading or trailing)"""
+    ch = LINE_BREAK_LIKE[_LB[0] % len(LINE_BREAK_LIKE)]
+    _LB[0] += 1
+    return word(rng, 1, 4) + ch + word(rng, 1, 4)
 
 def uword(rng, lo=1, hi=8):
     """a word with non-ASCII letters"""
@@ -150,6 +162,8 @@ def value(rng):
         return rng.random() < 0.5
     if r < 0.5:
         return uword(rng, 1, 10)
+    if r < 0.58:
+        return lbword(rng)
     s = word(rng, 1, 12, SAFE).strip()
     return s if s else 'x'
 
@@ -216,7 +230,7 @@ def gen_record(rng, tx=None, kind=None):
         seqname = tx
         base.append(['GENE_ID', gene])
     if rng.random() < 0.7:
-        base.append(['GENE_SYMBOL', uword(rng) if rng.random() < 0.3 else word(rng)])
+        base.append(['GENE_SYMBOL', uword(rng) if rng.random() < 0.3 else lbword(rng) if rng.random() < 0.1 else word(rng)])
     if rng.random() < 0.7:
         base.append(['GENOMIC_POSITION', 'chr%d:%d-%d' % (rng.randint(1, 22), rng.randint(1, 10 ** 8), rng.randint(1, 10 ** 8))])
     shifted_, real_, syn_ = key_pools()
@@ -245,6 +259,8 @@ def gen_record(rng, tx=None, kind=None):
     _id = '%s-%d-%s-%s' % (typ, start + 1, ref[:3], alt.strip('<>')[:3]) if rng.random() < 0.8 else word(rng, 1, 20, SAFE).strip() or 'id'
     if rng.random() < 0.1:
         _id = _id + '-' + uword(rng, 1, 4)
+    elif rng.random() < 0.06:
+        _id = _id + '-' + lbword(rng)
     return {'seqname': seqname, 'start': start, 'end': end, 'ref': ref, 'alt': alt, 'type': typ, 'id': _id, 'attrs': uniq}
 
 def rec_key(r):
@@ -329,7 +345,9 @@ def gen_circ(rng, tx=None):
     genomic = rng.choice(['', 'chr%d:%d-%d' % (rng.randint(1, 22), rng.randint(1, 10 ** 8), rng.randint(1, 10 ** 8)),
                           'chrX:%d' % rng.randint(1, 10 ** 7)])
     cid = 'CIRC-%s-%s' % (tx, '-'.join('E%d' % (i + 1) for i in range(n)))
-    gname = uword(rng) if rng.random() < 0.3 else word(rng)
+    gname = uword(rng) if rng.random() < 0.3 else lbword(rng) if rng.random() < 0.15 else word(rng)
+    if rng.random() < 0.05:
+        cid = cid + '-' + lbword(rng)
     return {'tx': tx, 'frags': frags, 'intron': intron, 'id': cid, 'gene_id': gene, 'gene_name': gname, 'genomic': genomic}
 
 def mutate_line(rng, line):
@@ -357,6 +375,61 @@ def mutate_line(rng, line):
     return s
 
 # ------------------------------------------------------------------ model-independent rendering (for checks T/K)
+def same_length_variant(rng, rec, circ):
+    """a record with the same byte layout (every field keeps its length) but different content"""
+    r = copy.deepcopy(rec)
+    def flip(sv):
+        idx = [i for i, ch in enumerate(sv) if ch in ALNUM]
+        if not idx:
+            return None
+        i = rng.choice(idx)
+        ch = rng.choice([x for x in ('ACGT' if sv[i] in 'ACGT' else ALNUM) if x != sv[i]])
+        return sv[:i] + ch + sv[i + 1:]
+    if circ:
+        for field in rng.sample(['gene_name', 'id', 'genomic'], 3):
+            v = flip(r[field])
+            if v is not None:
+                r[field] = v
+                return r
+        return r
+    cands = ['id']
+    if r['type'] in ('SNV', 'RNAEditingSite', 'INDEL', 'MNV'):
+        cands += ['alt', 'alt', 'ref']
+    attr_i = [i for i, (k, v) in enumerate(r['attrs'])
+              if isinstance(v, str) and k not in ('TRANSCRIPT_ID', 'GENE_ID') and k not in key_pools()[0]
+              and k != 'END' and any(ch in ALNUM for ch in v)]
+    cands += [('attr', i) for i in attr_i]
+    rng.shuffle(cands)
+    for cnd in cands:
+        if isinstance(cnd, tuple):
+            v = flip(r['attrs'][cnd[1]][1])
+            if v is not None:
+                r['attrs'][cnd[1]][1] = v
+                return r
+        else:
+            v = flip(r[cnd])
+            if v is not None:
+                r[cnd] = v
+                return r
+    return r
+
+def twin_file(rng, f):
+    """a second file with a byte-identical layout (same header length, same line lengths, hence the same
+    pointers key/start/end) and different content, for a prefix of the records or for all of them"""
+    g = copy.deepcopy(f)
+    n = len(g['records'])
+    keep = n if rng.random() < 0.5 else rng.randint(1, max(1, n))
+    g['records'] = [same_length_variant(rng, r, f['circ']) for r in f['records'][:keep]]
+    if keep < n or rng.random() < 0.3:
+        # after the common prefix the twin continues on its own
+        for r in f['records'][keep:][:rng.randint(0, 3)]:
+            g['records'].append(gen_circ(rng, r['tx']) if f['circ'] else gen_record(rng, rec_key(r)))
+    if 'source' in g and g['source'] and g['source'][-1] in ALNUM:
+        g['source'] = g['source'][:-1] + rng.choice([x for x in ALNUM if x != g['source'][-1]])   # gSNP vs gSNQ
+    g['edits'] = []
+    g['idx'] = rng.random() < 0.4
+    return g
+
 def gen_pool_case(rng, quick):
     nfiles = rng.choice([1, 1, 2, 2, 3, 4])
     txs = ['ENST%03d.1' % i for i in range(rng.randint(1, 5))]
@@ -405,7 +478,17 @@ def gen_pool_case(rng, quick):
             else:
                 f['edits'].append({'type': t})
         files.append(f)
-    return {'kind': 'pool', 'files': files, 'absent_keys': ['ENST999.9'], 'getitem': all(f['circ'] for f in files)}
+    # byte-identical layouts: a twin of one file (same offsets and lengths of the runs, other content)
+    twins = 0
+    if rng.random() < 0.3:
+        src = [f for f in files if f['records'] and not f['edits']]
+        if src:
+            f = rng.choice(src)
+            for _ in range(rng.choice([1, 1, 2])):
+                files.insert(rng.randrange(len(files) + 1), twin_file(rng, f))     # any file order
+                twins += 1
+    return {'kind': 'pool', 'files': files, 'absent_keys': ['ENST999.9'], 'getitem': all(f['circ'] for f in files),
+            'twins': twins}
 
 def gen_cases(ctx):
     rng = ctx.rng
@@ -481,6 +564,8 @@ def check_wpw(acc, c, r, m, fixed=None):
                 acc.count('wpw/wf_with_START_END_POSITION-like_unshifted_key')
         if isinstance(s1, str) and any(ord(ch) > 127 for ch in s1):
             acc.count(kind + '/wf_with_non_ascii')
+        if isinstance(s1, str) and any(ch in LINE_BREAK_LIKE for ch in s1):
+            acc.count(kind + '/wf_with_line_break_like_char')
         if isinstance(s1, str):
             acc.nontriv.add(s1)
         if not prop_ok:
@@ -571,6 +656,8 @@ def check_pool(acc, c, r, ms, second):
             acc.count('pool/files_with_multibyte_char')
         if '\r\n' in fo['final']:
             acc.count('pool/files_crlf')
+        if any(x in fo['final'] for x in LB_BYTES):
+            acc.count('pool/files_with_line_break_like_char')
         for e in f['edits']:
             acc.count('pool/edit:%s%s' % (e['type'], '+idx' if f.get('idx') else ''))
         # T: byte-identical second write -- claimed for files all of whose records lie inside the hypothesis of the
@@ -649,6 +736,15 @@ def check_pool(acc, c, r, ms, second):
         if sorted(impl_ptrs[i], key=lambda p: p[1]) != sorted(model_ptrs[i], key=lambda p: p[1]):
             acc.viol('corr:C13/pointers file %d: model %s vs impl %s' % (i, str(model_ptrs[i])[:200], str(impl_ptrs[i])[:200]), c,
                      extra={'name': 'corr:C13/pointers'}, no_input=True)
+    # measured: the same (key, start, end) occurring in two different files (byte-identical layouts)
+    seen_ptr = {}
+    for i in range(len(files)):
+        for p_ in model_ptrs[i]:
+            seen_ptr.setdefault(tuple(p_), set()).add(i)
+    if any(len(v) > 1 for v in seen_ptr.values()):
+        acc.count('pool/same_key_start_end_in_two_files')
+        if any(not f.get('idx') for f in c['files']):
+            acc.count('pool/same_key_start_end_in_two_files_without_idx')
     # K: per key, pointer route == scan route (on the implementation's own outputs)
     scan_ok = all(isinstance(fo['scan'], list) for fo in files)
     # signature of finding C13-loneCR: a carriage return that is not part of CRLF -- a line break for the text-mode
